@@ -12,7 +12,7 @@ import signal
 
 from .. import tlc, ser, progs
 from ..artefact import run_jobs
-from ..common import Scratch, Timer, tier, seed, use_repo, MachineryError, vlog
+from ..common import is_ret,  Scratch, Timer, tier, seed, use_repo, MachineryError, vlog
 from ..report import Report
 
 STEP_NAMES = {
@@ -106,7 +106,7 @@ def apply_job(job):
             continue
         finally:
             signal.alarm(0)
-        rets = [n for n, _ in pre_j if n.startswith("_ret")]
+        rets = [n for n, _ in pre_j if is_ret(n)]
         seen_alone = set()
 
         def record(step, mode, a, fn):
@@ -231,7 +231,7 @@ def model_check_rules(sc, quick):
 def triggers_of(r):
     """call-site patterns of a recorded application (used to identify known findings)"""
     tr = [r["step"]]
-    if r["step"] == "apply_cse" and any(not n.startswith("_ret") for n, _ in r["pre"]):
+    if r["step"] == "apply_cse" and any(not is_ret(n) for n, _ in r["pre"]):
         tr.append("apply_cse-on-list-with-intermediate-definitions")
     return tuple(tr)
 
